@@ -49,7 +49,10 @@ def one(name):
         out["check_rc"] = rc_k
         out["check_s"] = round(time.time() - t0, 1)
         lines = [l for l in o_k.splitlines() if l.startswith(("VIOLATION", "UNDECIDED", "CHECKER-ERROR", "KNOWN"))]
-        out["check_lines"] = [l[:220] for l in lines[:6]]
+        viol = [l for l in lines if l.startswith("VIOLATION")]
+        other = [l for l in lines if not l.startswith(("VIOLATION", "KNOWN"))]
+        out["check_lines"] = [l[:220] for l in (viol[:6] + other[:3])]
+        out["known_finding_lines"] = sum(1 for l in lines if l.startswith("KNOWN"))
         out["summary"] = o_k.strip().splitlines()[-1][:200] if o_k.strip() else ""
     finally:
         sh(f"git -C /repo worktree remove --force {wt}")
